@@ -9,6 +9,7 @@ import (
 type writeUnit struct {
 	pendingMemoryWrite bool
 	cycles             int
+	mmu                *memoryManagementUnit
 }
 
 func (wu *writeUnit) cycle(ctx *risc.Context, inBus *comp.SimpleBus[risc.ExecutionContext]) {
@@ -32,6 +33,7 @@ func (wu *writeUnit) cycle(ctx *risc.Context, inBus *comp.SimpleBus[risc.Executi
 		wu.pendingMemoryWrite = true
 		wu.cycles = latency.MemoryAccess
 		ctx.WriteMemory(execution.Execution)
+		wu.mmu.storeWritten(execution.Execution)
 	}
 }
 
